@@ -20,8 +20,8 @@ CLAIMS = {
          "K-t extraction of match arms; float parts only kind/totality; string methods not yet covered"),
  "C17": ("proof", "The 'returns Err, never panics' re-reading of every operator and numeric built-in obligation (Kani: no failed Rust panic check in the code under contract; Verus strict mode for * / %). Known finding D9 (integer overflow panics) is reported as such. map / filter bridge visits never index past the list; Display for Stack lists every active frame once, innermost first.", "4.C17", TECH_K + "; " + TECH_V,
          "as C05/C14; trace shape and process exit status not yet covered"),
- "C20": ("other", "BOUNDED: the selection predicate extracted from clean_command equals the extension spec for all names up to 5 (thorough: 6) bytes over a fixed alphabet (Kani); the loop frame is a syntactic scan reported as an assumption.", "4.C20", "bounded Kani check of the extracted predicate (K-t) + scan",
-         "bounded; file-system effects not modelled"),
+ "C20": ("proof", "Verus proves the real clean_command (translated mechanically each run) for EVERY directory listing and every file name: on success exactly the non-directory entries directly inside DIR whose extension is `mmm` were removed, each by its own path DIR/NAME, and their number reported; when it stops with an error, a prefix of them; no other file-system effect; the Clean arm of main cleans exactly the directory the user named (clap hands it over as typed). The meaning of `extension` is the documented contract of std::path::Path::extension, assumed by the proof and cross-checked against the real std by a BOUNDED Kani harness (names up to 5 / 6 bytes over a fixed alphabet), which also re-checks the extracted predicate on the real std (bounded obligations, counted separately, never as proved).", "4.C20", TECH_V + "; bounded Kani cross-check of the assumed std contract (K-t)",
+         "std::fs::read_dir / DirEntry / remove_file / Path::extension contracts assumed from the std documentation; fewer than 2^31 entries; concurrent modification, permissions and I/O races outside the contract; helper functions a change introduces are not carried (undecided, or reported by the syntactic frame scan)"),
 }
 CLAIMS.update({
  "C02": ("proof", "Static operator table vs run time: Kani proves for every (kind, kind, operator) cell of the real get_output_type table that the static result kind is the kind the run-time operator yields and that no cell is accepted on which the run-time operator cannot succeed; the run-time side of each numeric cell is proved by the C05 obligations (also listed here). Verus proves the list arms of eq_complex / PartialEq for ListType (every slot, not some slot) and try_coerce_to_open (every adjacent pair) for all list lengths. Statement-level typing checks of the parser are not yet under contract. Further (Verus): supports_negate, numeric from-bounds, if/else return-path marking, call-argument count and types, FunctionType equality, compound-assignment result type, conditions read through element / field pointers.", "4.C02", TECH_K + "; " + TECH_V,
